@@ -57,7 +57,7 @@ def run(ctx: Ctx):
     # (c) syntactic sweep of hook bodies for whole-mapping operations the tree evaluator does not see
     for reg in sa.hooks.all_hook_functions():
         fn = reg.hook
-        param = fn.args.args[0].arg
+        param = fn.args.args[min(getattr(reg, "nbound", 0), len(fn.args.args) - 1)].arg
         # names that (may) hold the input or a part of it: the parameter, locals assigned from such, loop variables over such
         tainted = {param}
         changed = True
